@@ -4,7 +4,7 @@
 From stdpp Require Import gmap numbers list sorting.
 From Coq Require Import ZArith String.
 Require Import Model.Bytes Model.Obs Model.Bank Model.Hashes Model.Sha3 Model.Valset.
-Require Model.L1 Model.L2 Model.TraceL1 Model.TraceL2 Model.Genesis1.
+Require Model.L1 Model.L2 Model.TraceL1 Model.TraceL2 Model.Genesis1 Model.Genesis2.
 
 Module G1.
   Import Model.L1 Model.TraceL1 Model.Genesis1.
@@ -45,3 +45,44 @@ Module G1.
       | None => OS "import-failed"
       end ].
 End G1.
+
+Module G2.
+  Import Model.L2 Model.TraceL2 Model.Genesis1 Model.Genesis2.
+
+  (* a history of the L2: messages and block ends (EndBlocker without an executor-change plan) *)
+  Inductive gop := GMsg (m : msg) | GEnd.
+  Record l2gcase := { q_base : l2case; q_ops : list gop }.
+
+  Definition gstep (c : cfg) (s : l2state) (o : gop) : l2state :=
+    match o with
+    | GMsg m => (step c s m).1
+    | GEnd => match end_block c s None with Some (s', _) => s' | None => s end
+    end.
+
+  Definition params_ov (p : params) : ov :=
+    OL [OB (p_admin p); OL (map OB (p_execs p)); ON (p_maxv p); ON (p_hist p);
+        OL (map (λ g, OL [OB g.1; OZ g.2]) (p_mingas p)); OL (map OB (p_whitelist p)); ON (p_hookgas p)].
+  Definition binfo_ov (b : binfo) : ov :=
+    OL [ON (bi_id b); OB (bi_addr b); OB (bi_chain b); OB (bi_client b); obool (bi_oracle b); OB (bi_cfg b)].
+  Definition genesis2_ov (g : genesis2) : ov :=
+    OL [params_ov (h_params g);
+        OL (map (λ lp : N * Z, OL [ON lp.1; OZ lp.2]) (h_last g));
+        OL (map (λ ov : N * val, OL [ON ov.1; ON (v_key ov.2); OZ (v_pow ov.2)]) (h_vals g));
+        obool (h_exported g); ON (h_next_l1 g); ON (h_next_l2 g);
+        oopt binfo_ov (h_info g);
+        OL (map (λ p, OL [OB p.1; OB p.2]) (h_pairs g))].
+
+  Definition same_vs (a b : vstate) : bool :=
+    bool_decide (vals a = vals b) && bool_decide (idx a = idx b) && bool_decide (last a = last b).
+
+  Definition run_gen2 (k : l2gcase) : list ov :=
+    let c := cfg_of (q_base k) in
+    let s := foldl (gstep c) (init_of (q_base k)) (q_ops k) in
+    let g := export2 s in
+    [ genesis2_ov g; obool (validate2 c g);
+      match import2 c s g with
+      | Some (f, ups) => OL [genesis2_ov (export2 f); OL (map (λ u : update, OL [ON u.1; OZ u.2]) ups);
+                             obool (same_vs (vs f) (vs s) && bool_decide (pairs f = pairs s))]
+      | None => OS "import-failed"
+      end ].
+End G2.
